@@ -92,7 +92,7 @@ impl Stage for C04 {
     }
     fn check(&self, prog: &Prog) -> Outcome {
         let mut out = Outcome::new(fnv_str(&prog.text()));
-        let mut eg = EGraph::default();
+        let mut eg = engine();
         if !declare(&mut eg, &prog.sig, &mut out) {
             return out;
         }
